@@ -150,10 +150,16 @@ def bind(chk: Check, tier: str, seed: int):
                 rel = [pm for pm in rel if want in (v.lower() for v in pm.values())]
                 extra = []
             near = [pm for pm in NEAR_MISSES if set(pm) & qtys] if (tag == "base" or tag.startswith("rand0") or tag.endswith(":mid")) else []
-            for pm in rel + (rng.sample(extra, 1) if extra else []) + cross + near:
-                key = json.dumps(pm, sort_keys=True)
+            plan = [(pm, "") for pm in rel + (rng.sample(extra, 1) if extra else []) + cross + near]
+            # the same preferences in a decoder that also writes a dump file: of everything, or of other PGNs only
+            if tag == "base":
+                plan += [(pm, how) for pm in rel[::2] for how in ("dump-all", "dump-other")]
+            for pm, how in plan:
+                key = json.dumps(pm, sort_keys=True) + how
                 if key not in decs:
-                    decs[key] = NMEA2000Decoder(preferred_units={PhysicalQuantities[k]: v for k, v in pm.items()})
+                    kw = {} if not how else dict(dump_to_file=str(wd / f"dump-{len(decs)}.jsonl"),
+                                                 dump_pgns=[] if how == "dump-all" else [59904, "isoAcknowledgement"])
+                    decs[key] = NMEA2000Decoder(preferred_units={PhysicalQuantities[k]: v for k, v in pm.items()}, **kw)
                     n_cross_maps.add(key)
                 dec = decs[key]
                 try:
@@ -178,7 +184,7 @@ def bind(chk: Check, tier: str, seed: int):
                         # the unconverted ones only for fields without conversion (TLC: cv = <<>>)
                 recs.append({"prefs": prefs, "plain": f0, "pref": f1,
                              "hdrSame": (p0["hdr"], m0.source, m0.destination, m0.priority) == (p1["hdr"], m1.source, m1.destination, m1.priority)})
-                meta.append((d["id"], tag, pm))
+                meta.append((d["id"], tag + ("/" + how if how else ""), pm))
     bad = validate("C18", recs, wd, shards=12)
     for i, vs in bad:
         did, tag, pm = meta[i]
